@@ -246,6 +246,8 @@ var wrongLits = []string{"", "abc", "true", "1", "0", "-1", "1.5", "256", "99999
 	// strings some other standard parser would read: durations, quantities, dates
 	"5s", "1m", "1h15m", "100ms", "1k", "10%", "2006-01-02", "1,000", "-", "null"}
 var regexPool = []string{".*", "^a", "b$", "[a-c]+", "^$", "(", "[", "a|b", `\d+`, "(?i)A", "^/", ".",
+	// inline flags and quoting that stay in force to the end of the pattern
+	"(?i)^h", "(?s)a.b", "(?m)^b$", "(?U)a+", `\Qa.b`, "(?i)", "x|(?i)y",
 	// invalid patterns whose quoted form is much longer than the pattern (error-message paths)
 	strings.Repeat("\xff", 24), "(?!x)" + strings.Repeat(`\.`, 30), `\1` + strings.Repeat(`\\`, 34), strings.Repeat("\x00", 20) + "(",
 	strings.Repeat("a", 76) + "(", strings.Repeat("é", 40) + "["}
